@@ -632,7 +632,10 @@ def run_wasm_any(cases, workdir, tag, shards=4):
     """Miri first (it also checks for UB); when Miri lacks an operation the code uses, the same cases on the real engine"""
     outs, crashed, info = run_miriwasm(cases, workdir, tag, shards=shards)
     if crashed and miri_unsupported(crashed):
-        o2, c2, i2 = run_nodewasm(cases, workdir, tag)
+        try:
+            o2, c2, i2 = run_nodewasm(cases, workdir, tag)
+        except Exception:  # noqa: BLE001
+            o2 = None
         if o2 is not None:
             return o2, c2, (info or i2), "node"
     return outs, crashed, info, "miri"
@@ -754,10 +757,16 @@ def special_c04(res, tier, seed, workdir, stats):
         return outs, crashed
     try:
         st2 = check_mod().run_config(res, "C04", tier, seed * 31 + 5, "node-wasm32-simd128", None, dict(info0, real_engine="1"), workdir, gen_override=gen_simd_target("wasm"), executor=ex_node, label="c04node")
-        stats.append(dict(st2, engine="node " + (hh.sh(["/usr/bin/nodejs", "--version"])[1].strip() or "?")))
+        try:
+            nver = hh.sh([next(n for n in ("/usr/bin/nodejs", shutil.which("node") or "", shutil.which("nodejs") or "") if n and os.path.exists(n)), "--version"])[1].strip()
+        except Exception:  # noqa: BLE001
+            nver = "?"
+        stats.append(dict(st2, engine="node " + nver))
         res.cov["real_engine"] = "the same op streams on V8 (node): src/wasm.rs + the runner built as one no_std wasm32 cdylib (+simd128) against the core-only Miri sysroot; Debug ops are not observed there"
     except RuntimeError:
         res.cov["real_engine"] = "not executed: " + str(nholder.get("unavailable", ""))[:300]
+    except Exception as e:  # noqa: BLE001   (the second executor is an addition: its own failure to run is never an alarm)
+        res.cov["real_engine"] = f"not executed: {type(e).__name__}: {str(e)[:200]}"
 
     def esc():
         st2 = check_mod().run_config(res, "C04", tier, seed * 4099 + 19, "miri-wasm32-simd128", None, info0, workdir, gen_override=gen_simd_target("wasm"), executor=ex, label="c04esc")
